@@ -825,6 +825,9 @@ class SetSites(ast.NodeVisitor):
     def visit_Call(self, n):
         ordered_consumers = {"list", "tuple", "zip", "enumerate", "iter", "next", "map", "reversed"}
         f = n.func
+        # an arbitrary element taken out of a set
+        if isinstance(f, ast.Attribute) and f.attr == "pop" and not n.args and self.is_set(f.value):
+            self.flag("set.pop", f.value)
         name = f.id if isinstance(f, ast.Name) else (f.attr if isinstance(f, ast.Attribute) else None)
         is_itertools = isinstance(f, ast.Attribute) and isinstance(f.value, ast.Name) and f.value.id == "itertools"
         if name in ordered_consumers or is_itertools or name in ("join", "extend"):
